@@ -157,6 +157,15 @@ def gen(seed, tier):
             hi = 2 if op == "power" else (3 if "shift" in op else 5)
             e2 = [rng.randint(0 if op not in GUARD else 1, hi) for _ in range(prod(s2))]
             out.append(f"{op}@u8 {arr(s1, e1)} {arr(s2, e2)}")
+    # narrow and unsigned element types with results OUTSIDE the type's range: the arithmetic family is evaluated in
+    # double precision and converted back — the conversion saturates (seeded change C04m: it wrapped around through i64);
+    # judged by the harness's own conversion, not the library's
+    EDGE = {"u8": [0, 3, 100, 200, 255], "i8": [-128, -100, -1, 0, 100, 127], "i16": [-32768, -300, 0, 300, 32767],
+            "i32": [-2 ** 31, -65536, 0, 65536, 2 ** 31 - 1]}
+    for ty, vals in EDGE.items():
+        for op in ("add", "subtract", "multiply", "power", "float_power"):
+            second = vals if op not in ("power", "float_power") else [0, 1, 2, 3, 9]
+            out.append(ew2_line(op, ty, [len(vals), 1], vals, [len(second)], second))
     # commutativity on equal shapes: both orders as separate cases (each compared with the model), floats by table
     for op in COMM:
         for sh in list(shapes(3, 3))[:: 2 if tier == "quick" else 1]:
